@@ -16,7 +16,7 @@ CHECKS = {
   technique="differential property-based testing (rapid): emitted HDL under an interpreter vs the ISA simulator, lock-step at retire points; metamorphic check optimised vs unoptimised HDL"),
  "C02": dict(
   category="translation_validation",
-  text="Per-machine differential validation: generated multi-processor machines (built through the public editing API; i2rw/r2owa IO, fan-out, mixed external/internal sources) are rendered by the real Bondmachine.Write_verilog into a scratch directory, the file set is executed by /verif's Verilog interpreter under a protocol-abiding environment (generated input streams, gaps, output stalls) and the value sequences accepted on every external output are compared prefix-wise with bondmachine.VM under the same environment; the AST of the top module is checked to connect exactly the bonds (data, valid) and each received line must be the conjunction of exactly its sinks' received lines. Runs that enter the region of a recorded handshake finding are counted as excluded.",
+  text="Per-machine differential validation: generated multi-processor machines (built through the public editing API; i2rw/r2owa IO, fan-out, mixed external/internal sources) are rendered by the real Bondmachine.Write_verilog into a scratch directory, the file set is executed by /verif's Verilog interpreter under a protocol-abiding environment (generated input streams, gaps, output stalls) and the value sequences accepted on every external output are compared prefix-wise with bondmachine.VM under the same environment; the AST of the top module is checked to connect exactly the bonds (data, valid) and each received line must be the conjunction of exactly its sinks' received lines. Runs that enter the region of a recorded handshake finding are counted as excluded. Processors have up to five inputs and outputs (port fields of 1-3 bits in every combination), processor order may differ from domain order, and the simulator side may run under a single-valued per-opcode delay map (the 'regardless of how many cycles' clause).",
   note="Trusted: /verif's Verilog interpreter, the environment model shared by both runners, the monitors classifying D4/D5/D12. Horizons differ, so streams are compared up to the shorter one.",
   technique="differential property-based testing (rapid) of emitted top-level HDL vs simulation on output streams + structural netlist oracle on the parsed AST"),
  "C03": dict(
@@ -24,7 +24,7 @@ CHECKS = {
   note="Trusted: the per-opcode operand-kind table in harness/c03/operand_kinds.go (read from each opcode's Assembler), numeric comparison of operands. Shared-object opcodes are covered with generated Shared_constraints.",
   technique="property-based testing (rapid): round-trip and range-rejection oracles over generated architectures and lines; native go fuzz"),
  "C04": dict(
-  text="Property-based testing of the handshake in the simulator world: generated producer/consumer programs (strictly increasing counter, nop padding, fan-out 1..3, fixed per-opcode delays, environment stalls, back-to-back writes) run on bondmachine.VM; after every tick each consumer's captured sequence must be a prefix of the offered sequence and the producer must not move past a write a consumer has not captured. Two genuine defects (D4, D5) are recorded as known findings, recognised by precondition monitors and excluded so search continues behind them. The same machines and invariant are run in the generated-hardware world (files of Bondmachine.Write_verilog under /verif's Verilog interpreter, observation at the processors' _pc/_rN); the hardware shares D4 (recorded as D4h).",
+  text="Property-based testing of the handshake in the simulator world: generated producer/consumer programs (strictly increasing counter, nop padding, fan-out 1..3, fixed per-opcode delays, environment stalls, back-to-back writes) run on bondmachine.VM; after every tick each consumer's captured sequence must be a prefix of the offered sequence and the producer must not move past a write a consumer has not captured. Two genuine defects (D4, D5) are recorded as known findings, recognised by precondition monitors and excluded so search continues behind them. The same machines and invariant are run in the generated-hardware world (files of Bondmachine.Write_verilog under /verif's Verilog interpreter, observation at the processors' _pc/_rN); the hardware shares D4 (recorded as D4h). Further entries: two producers feeding one consumer that reads both inputs back to back (sim_join/hdl_join), and arbitrary dataflow graphs with up to five ports per processor side where every bond (processor-processor, external-processor, processor-external) is judged with the same invariant in both worlds (sim_graph/hdl_graph).",
   note="Trusted: observation at the processors (PC leaving i2rw/r2owa, register values), the precondition monitors that classify D4/D4h/D5 (a duplicate is excused only by D4, a loss only by D5), /verif's Verilog interpreter for the hardware world.",
   technique="property-based testing (rapid) with a history invariant checked every tick; known-finding monitors"),
  "C05": dict(
@@ -36,7 +36,7 @@ CHECKS = {
   note="Trusted: the reference evaluator harness/c06/ref.go, the rendezvous model that recognises the recorded deadlock class, the Go simulator for the faithful opcodes used.",
   technique="property-based testing (rapid): reference-model oracle (dataflow evaluation) + metamorphic relation across partitions"),
  "C07": dict(
-  text="Generated-input search for nondeterminism: grammar-generated BASM sources (sections, CPs, fragments, macros, dynamic opcodes, cluster output, chooser/pass/optimisation flags), neural nets (both neuralbond modes, then basm), quantum circuits (bmqsim flavours, then basm), Go-subset programs (bondgo incl. -mpm) and machines for HDL generation are each run N times as fresh child processes of the real CLIs with varied GOMAXPROCS, and twice in-process on fresh instances; every output file, stdout and exit status must be byte-identical. Found five map-iteration-order nondeterminisms (all fixed in /repo).",
+  text="Generated-input search for nondeterminism: grammar-generated BASM sources (sections, CPs, fragments, macros, dynamic opcodes, cluster output, chooser/pass/optimisation flags), neural nets (both neuralbond modes, then basm), quantum circuits (bmqsim flavours, then basm), Go-subset programs (bondgo incl. -mpm) and machines for HDL generation are each run N times as fresh child processes of the real CLIs with varied GOMAXPROCS, and twice in-process on fresh instances; every output file, stdout and exit status must be byte-identical. Found five map-iteration-order nondeterminisms (all fixed in /repo). The bondmachine entry also draws board flavours that write bondmachine_main.v, with and without BMAPI (uartusb, aximm, all ports mapped) and UART pin maps; generated BASM sources carry shared objects with boundary parameters.",
   note="Trusted: the byte comparison (timestamps stripped, crash dumps cut after the panic line). A nondeterminism with per-run probability p is missed with (1-p)^(N-1); rarer orders are out of reach.",
   technique="property-based testing (rapid): metamorphic run-to-run equality over repeated fresh-process and in-process executions of generated inputs"),
  "C08": dict(
@@ -52,7 +52,7 @@ CHECKS = {
   note="Trusted: the reflection walk with its documented exemptions (nil=empty slice, caches set by Write_verilog), the registry reset that makes each case independent.",
   technique="property-based testing (rapid): round-trip oracle with reflection-driven structural equality and field perturbation; bounded sweep over opcodes"),
  "C12": dict(
-  text="Property-based testing of the Go-subset compiler through its real CLI: grammar-generated programs (register and RAM variables, + * ==, ++/--, if/for/switch, inlined functions, IO, a share of unsupported operators that must be rejected, -mpm workers and channels) are compiled as child processes under a hard deadline for several forced schedule plans (verif-tagged scheduling points + GOMAXPROCS): the compiler must terminate, emit byte-identical assembly and machine JSON across plans, and — where the emitted machine uses faithfully simulated opcodes — write the same output streams as an independent AST evaluator of the source with wrap-around. Found D8 (hang) and a map-order nondeterminism (both fixed) and four miscompilation classes recorded as known findings.",
+  text="Property-based testing of the Go-subset compiler through its real CLI: grammar-generated programs (register and RAM variables, + * ==, ++/--, if/for/switch, inlined functions, IO, a share of unsupported operators that must be rejected, -mpm workers and channels) are compiled as child processes under a hard deadline for several forced schedule plans (verif-tagged scheduling points + GOMAXPROCS): the compiler must terminate, emit byte-identical assembly and machine JSON across plans, and — where the emitted machine uses faithfully simulated opcodes — write the same output streams as an independent AST evaluator of the source with wrap-around. Found D8 (hang) and a map-order nondeterminism (both fixed) and four miscompilation classes recorded as known findings. Programs whose only applicable recorded finding is the je placeholder are run again with je executed as jump-if-equal (a difference that remains is a violation); one case in four (half of the -mpm cases) also passes -show-requirements, which must not change the artefacts.",
   note="Trusted: the reference evaluator harness/c12/ref.go, the hang classifier (goroutine dump), the faithful-opcode list for semantic verdicts. Programs compiling to r2m/m2r/channel opcodes get termination and determinism verdicts only.",
   technique="grammar-based property testing (rapid) of the real CLI: reference-interpreter differential, schedule fuzzing through verif-tagged hook points, run-to-run byte equality"),
  "C13": dict(
